@@ -1,14 +1,25 @@
-"""./pkv setup: build everything from files on disk only (offline)."""
-import os, sys
+"""./pkv setup: build everything the registered checks need, from files on disk only (offline)."""
+import importlib, json, os, sys
 import common
 
 def main():
+    man = json.load(open(os.path.join(common.VERIF, "MANIFEST.json")))
+    props = [c["property_id"] for c in man["checks"]]
     for name in common.TRANSLATORS:
         common.run_translator(name)
     bad = common.hygiene_gate()
     if bad:
         print("hygiene gate:", bad); return 1
-    common.harness_build("release")
-    common.coq_build(["all"], timeout=3000)
-    print("setup ok")
+    targets, bins = set(), set()
+    for p in props:
+        mod = importlib.import_module(p.lower())
+        targets.update(getattr(mod, "COQ_TARGETS", []))
+        targets.add("theories/Props/%s.vo" % p)
+        bins.update(getattr(mod, "HARNESS_BINS", []))
+    for b in sorted(bins):
+        common.harness_build(b)
+        for prof in getattr(common, "EXTRA_PROFILES", {}).get(b, []):
+            common.harness_build(b, profile=prof)
+    common.coq_build(sorted(targets), timeout=3000)
+    print("setup ok: %d Coq targets, harness bins %s" % (len(targets), sorted(bins)))
     return 0
